@@ -1,6 +1,6 @@
 # Per-property driver configuration: which package the harness lives in, whether the
 # race detector is on per tier, shard counts and shard time-outs.
-def P(pkg=".", harness="dastard", race=None, shards=None, shard_timeout=None, gomaxprocs=None, level="exploration", max_restarts=40, fuzz=None, extra_bin=None):
+def P(pkg=".", harness="dastard", race=None, shards=None, shard_timeout=None, gomaxprocs=None, level="exploration", max_restarts=40, fuzz=None, extra_bin=None, asan=False):
     d = dict(pkg=pkg, harness=harness, level=level, max_restarts=max_restarts)
     d["race"] = race or {}
     d["shards"] = shards or {}
@@ -11,19 +11,21 @@ def P(pkg=".", harness="dastard", race=None, shards=None, shard_timeout=None, go
         d["fuzz"] = fuzz
     if extra_bin:
         d["extra_bin"] = extra_bin
+    if asan:
+        d["asan"] = True  # thorough tier: the quick case list once more under go test -asan
     return d
 
 PROPS = {
     "C01": P(gomaxprocs=[1, 2, 4, 4]),
     "C02": P(gomaxprocs=[1, 2, 4, 4]),
-    "C03": P(shards={"quick": 16, "thorough": 16}),
+    "C03": P(shards={"quick": 16, "thorough": 16}, asan=True),
     "C19": P(),
     "C04": P(),
     "C17": P(race={"quick": True, "thorough": True}, shards={"quick": 6, "thorough": 12}, gomaxprocs=[4, 2, 8, 16, 3, 6], shard_timeout={"quick": 900, "thorough": 3000}),
     "C11": P(shard_timeout={"quick": 900, "thorough": 3000}, max_restarts=400),
     "C10": P(shard_timeout={"quick": 1200, "thorough": 3000}),
     "C16": P(shards={"quick": 8, "thorough": 16}, level="fault_enumeration", extra_bin="./cmd/dastard"),
-    "C05": P(),
+    "C05": P(asan=True),
     "C06": P(),
     "C20": P(),
     "C07": P(level="fault_enumeration"),
@@ -31,7 +33,7 @@ PROPS = {
     "C09": P(gomaxprocs=[1, 2, 4, 4]),
     "C12": P(),
     "C13": P(),
-    "C14": P(race={"thorough": True}),
-    "C15": P(pkg="packets", harness="packets", race={"thorough": True}, fuzz="FuzzVerifPacket"),
-    "C18": P(pkg="ringbuffer", harness="ringbuffer", race={"thorough": True}),
+    "C14": P(race={"thorough": True}, asan=True),
+    "C15": P(pkg="packets", harness="packets", race={"thorough": True}, fuzz="FuzzVerifPacket", asan=True),
+    "C18": P(pkg="ringbuffer", harness="ringbuffer", race={"thorough": True}, asan=True),
 }
